@@ -326,14 +326,21 @@ func (r *deserContext) decodeBinary() Item {
 		return NewBool(b)
 	case IntegerT:
 		data := r.ReadVarBytes(bigint.MaxBytesLen)
+		if r.Err != nil {
+			return nil
+		}
 		num := bigint.FromBytes(data)
 		return NewBigInteger(num)
 	case ArrayT, StructT:
-		size := int(r.ReadVarUint())
-		if size > r.limit {
+		usize := r.ReadVarUint()
+		if r.Err != nil {
+			return nil
+		}
+		if usize > uint64(r.limit) {
 			r.Err = errTooBigElements
 			return nil
 		}
+		size := int(usize)
 		arr := make([]Item, size)
 		for i := range size {
 			arr[i] = r.decodeBinary()
@@ -344,16 +351,28 @@ func (r *deserContext) decodeBinary() Item {
 		}
 		return NewStruct(arr)
 	case MapT:
-		size := int(r.ReadVarUint())
-		if size > r.limit/2 {
+		usize := r.ReadVarUint()
+		if r.Err != nil {
+			return nil
+		}
+		if usize > uint64(r.limit/2) {
 			r.Err = errTooBigElements
 			return nil
 		}
+		size := int(usize)
 		m := NewMap()
 		for range size {
 			key := r.decodeBinary()
 			value := r.decodeBinary()
 			if r.Err != nil {
+				break
+			}
+			if key == nil {
+				r.Err = fmt.Errorf("%w: invalid map key", ErrInvalidType)
+				break
+			}
+			if err := IsValidMapKey(key); err != nil {
+				r.Err = err
 				break
 			}
 			m.Add(key, value)
